@@ -163,4 +163,44 @@ for gi, (dig, nsub) in enumerate([(True, 1), (True, 3), (True, 4), (False, 3), (
         R.check('gain/same-added-power-in-every-subblock', c, len(outb) == 3 and len(pw) >= 3 and pw.min() > 0.5 and pw.max() / pw.min() < 2.0, [round(x, 2) for x in pw[:10]], 'max/min < 2, min > 0.5')
     for fn in os.listdir(R.tmp):
         os.unlink(os.path.join(R.tmp, fn))
+
+# requantiser target statistics: set per input block from ALL of the decoded samples of that antenna/polarisation - a block longer than any
+# estimation window (12288 time samples), quiet at its head and loud with an offset at its tail, so that statistics of a prefix differ
+for li, (l_npol, l_nc) in enumerate([(1, 2), (2, 1)][:R.n(2, 2)]):
+    T_long = 12288
+    l_bs = T_long * l_nc * 2 * l_npol
+    src = source(1, l_npol, 900 + li)
+    be = stg.voltage.RawVoltageBackend(src, digitizer=stg.voltage.RealQuantizer(num_bits=8), filterbank=stg.voltage.PolyphaseFilterbank(num_taps=TAPS, num_branches=NB),
+                                       requantizer=stg.voltage.ComplexQuantizer(target_fwhm=32, num_bits=8), start_chan=1, num_chans=l_nc, block_size=l_bs, blocks_per_file=1, num_subblocks=4)
+    stem_l = os.path.join(R.tmp, f'long{li}')
+    be.record(stem_l, num_blocks=1, length_mode='num_blocks', header_dict={'DIRECTIO': 0}, load_template=False, verbose=False)
+    fn_l = stem_l + '.0000.raw'
+    raw = bytearray(open(fn_l, 'rb').read())
+    nrg = np.random.default_rng(R.seed + li)
+    pay = np.empty((l_nc, T_long * l_npol * 2))
+    head = (T_long * 5 // 6) * l_npol * 2
+    pay[:, :head] = nrg.normal(0, 4, size=(l_nc, head))
+    pay[:, head:] = nrg.normal(9, 30, size=(l_nc, pay.shape[1] - head))
+    pay = np.clip(np.round(pay), -128, 127).astype(np.int8)
+    raw[len(raw) - l_bs:] = pay.tobytes()
+    open(fn_l, 'wb').write(bytes(raw))
+    c = dict(npol=l_npol, nc=l_nc, time_samples=T_long, nbits=8)
+    inj = R.guard('from_data-long-block', c, lambda: stg.voltage.RawVoltageBackend.from_data(stem_l, source(1, l_npol, 950 + li, noise=False), filterbank=stg.voltage.PolyphaseFilterbank(num_taps=TAPS, num_branches=NB),
+                                                                                           start_chan=1, num_subblocks=4))
+    if inj is not None:
+        inj.input_file_handler = open(fn_l, 'rb')
+        blk = R.guard('read-long-block', c, lambda: inj._read_next_block())
+        inj.input_file_handler.close()
+        if blk is not None:
+            d = pay.astype(float)
+            ok, got = True, []
+            for p in range(l_npol):
+                re, im = d[:, 2 * p::2 * l_npol], d[:, 2 * p + 1::2 * l_npol]
+                q = inj.requantizer[0][p]
+                got.append((float(q.quantizer_r.target_mean), float(q.quantizer_r.target_std), float(q.quantizer_i.target_mean), float(q.quantizer_i.target_std)))
+                want = (re.mean(), re.std(), im.mean(), im.std())
+                ok = ok and all(abs(g - w) <= 1e-9 * max(1.0, abs(w)) for g, w in zip(got[-1], want))
+            R.check('decode/requantiser-targets-are-the-statistics-of-the-whole-input-block', c, ok, got)
+    for fn in os.listdir(R.tmp):
+        os.unlink(os.path.join(R.tmp, fn))
 R.finish()
